@@ -650,3 +650,110 @@ Section fanin_eq.
     eapply cone_supergates_fanin_eq; try done. apply elem_of_outputs in Ho as (i & Hi & _). by eapply elem_of_dom_2.
   Qed.
 End fanin_eq.
+
+(* ================================================================ cover: one output cone, then single-output circuits *)
+Lemma grow_all_head k kids o : ∃ S0 rest, grow_all (S k) kids [o] = (o, S0) :: rest.
+Proof. simpl. eauto. Qed.
+Lemma mk_sg_lookup_intro co r S n k : n ∈ S → co !! n = Some k →
+  ∃ i, c_g (mk_sg co r S) !! n = Some i ∧
+       n_ty i = if is_const (n_ty k) then n_ty k else if bool_decide (n_fi k ∩ S = ∅) then Input else n_ty k.
+Proof.
+  intros HS Hk. simpl.
+  assert (fix_io (subgraph co S) !! n = Some {| n_ty := if is_const (n_ty k) then n_ty k else if bool_decide (n_fi k ∩ S = ∅) then Input else n_ty k;
+            n_out := if bool_decide (fanout (subgraph co S) n = ∅) then true else n_out k; n_fi := n_fi k ∩ S |}) as E.
+  { unfold fix_io. rewrite map_lookup_imap. erewrite (proj2 (subgraph_lookup co S n _)); [|split; [done|]; eauto]. done. }
+  destruct (decide (r = n)) as [->|Hne].
+  - rewrite lookup_alter, E. simpl. eauto.
+  - rewrite lookup_alter_ne, E by done. eauto.
+Qed.
+Lemma mk_sg_dom co r S n : n ∈ dom (c_g (mk_sg co r S)) → n ∈ S.
+Proof. intros [i Hi]%elem_of_dom. by apply mk_sg_lookup in Hi as [? _]. Qed.
+
+Section cover.
+  Context (L : circuit) (rank : string → nat).
+  Hypothesis Hclosed : closed L.
+  Hypothesis Hrank : ∀ n i f, L !! n = Some i → f ∈ n_fi i → rank f < rank n.
+  Hypothesis Hbound : ∀ n i, L !! n = Some i → size (n_fi i) ≤ 2.
+  Hypothesis Hconst : ∀ n i, L !! n = Some i → is_const (n_ty i) = true → n_fi i = ∅.
+  Hypothesis Hdriven : ∀ n i, L !! n = Some i → n_ty i ≠ Input → is_const (n_ty i) = false → n_fi i ≠ ∅.
+
+  Section one_cone.
+    Context (o : string) (HoL : o ∈ dom L).
+    Let co := cone L o.
+    Let av := avoid_table co o.
+    Let sd := sdom_table av.
+    Let kids := kids_of co o sd.
+    Let gs := grow_all (S (size co)) kids [o].
+    Hypothesis Hup : up_ok L o.
+    Hypothesis Hav : avoid_ok co o av.
+    Hypothesis Hgrow : Forall (grow_ok o sd kids) gs.
+    Hypothesis Hfront : frontier_ok kids gs.
+
+    Let C1 : ∀ x f, x ∈ dom co → f ∈ fanin co x → f ∈ dom co ∧ rank f < rank x.
+    Proof. intros; eapply cone_C1; eauto. Qed.
+    Let C2 : ∀ P : string → Prop, P o → (∀ x f, x ∈ dom co → P x → f ∈ fanin co x → P f) → ∀ x, x ∈ dom co → P x.
+    Proof. intros; eapply cone_C2; eauto. Qed.
+    Let C3 : o ∈ dom co.
+    Proof. eapply cone_C3; eauto. Qed.
+    Let Hhead : ∃ S0, (o, S0) ∈ gs.
+    Proof. destruct (grow_all_head (size co) kids o) as (S0 & rest & E). exists S0. unfold gs. rewrite E. by left. Qed.
+
+    Lemma co_node n : n ∈ tfi_star L o → ∃ k kL, co !! n = Some k ∧ L !! n = Some kL ∧ n_ty k = n_ty kL ∧ n_fi k = n_fi kL.
+    Proof.
+      intros Hn. assert (n ∈ dom co) as [k Hk]%elem_of_dom by (unfold co; eapply cone_dom; eauto). pose proof Hk as Hk'.
+      apply cone_lookup in Hk' as (_ & kL & HkL & Ht & _). exists k, kL. split; [done|]. split; [done|]. split; [done|].
+      assert (fanin co n = fanin L n) as Hf by (unfold co; eapply cone_fanin; eauto). unfold fanin in Hf. by rewrite Hk, HkL in Hf.
+    Qed.
+    Lemma co_bound n : size (fanin co n) ≤ 2.
+    Proof.
+      destruct (co !! n) as [k|] eqn:Hk.
+      - unfold fanin. rewrite Hk. simpl. pose proof Hk as Hk'. apply cone_lookup in Hk' as (_ & kL & HkL & _ & Hfi). rewrite Hfi.
+        etrans; [apply subseteq_size; apply intersection_subseteq_l|]. by eapply Hbound.
+      - assert (fanin co n = (∅ : gset string)) as E by (unfold fanin; by rewrite Hk). rewrite E, size_empty. lia.
+    Qed.
+
+    (* every non-input node of the cone is a gate of a supergate grown in this cone *)
+    Lemma cone_cover n : n ∈ tfi_star L o → n ∉ inputs L → ∃ r S, (r, S) ∈ gs ∧ n ∈ gates (c_g (mk_sg co r S)).
+    Proof.
+      intros Hn Hni. destruct (co_node n Hn) as (k & kL & Hk & HkL & Hty & Hfi).
+      assert (n ∈ dom co) as Hnd by (by eapply elem_of_dom_2).
+      assert (n_ty kL ≠ Input) as HnI. { intros E. apply Hni. apply elem_of_inputs. eauto. }
+      assert (∃ r S, (r, S) ∈ gs ∧ n ∈ S ∧ (is_const (n_ty k) = true ∨ n_fi k ∩ S ≠ ∅)) as (r & S & Hin & HnS & Hgate).
+      { destruct (is_const (n_ty k)) eqn:Hc.
+        - destruct (covered co o rank C1 C2 C3 Hav gs Hgrow Hfront Hhead n Hnd) as (r & S & Hin & HnS). exists r, S. auto.
+        - assert (n_fi kL ≠ ∅) as Hne by (apply (Hdriven n kL HkL HnI); congruence).
+          apply set_choose_L in Hne as [f Hf].
+          destruct (gate_covered co o rank C1 C2 C3 Hav gs Hgrow Hfront Hhead n f Hnd (co_bound n)) as (r & S & f' & Hin & HnS & Hf' & Hf'S).
+          { unfold fanin. rewrite Hk. simpl. by rewrite Hfi. }
+          exists r, S. split; [done|]. split; [done|]. right. unfold fanin in Hf'. rewrite Hk in Hf'. simpl in Hf'.
+          intros E. assert (f' ∈ n_fi k ∩ S) as Hbad by (apply elem_of_intersection; done). rewrite E in Hbad. by apply elem_of_empty in Hbad. }
+      exists r, S. split; [done|]. destruct (mk_sg_lookup_intro co r S n k HnS Hk) as (i & Hi & Hti).
+      apply elem_of_difference. split; [by eapply elem_of_dom_2|]. intros (i' & Hi' & HI)%elem_of_inputs.
+      assert (i' = i) as -> by congruence. rewrite Hti in HI.
+      destruct Hgate as [Hc|Hne].
+      - rewrite Hc in HI. rewrite Hty in HI. done.
+      - destruct (is_const (n_ty k)); [rewrite Hty in HI; done|]. rewrite bool_decide_eq_false_2 in HI by done. rewrite Hty in HI. done.
+    Qed.
+
+    (* the root of a grown set is not a gate of the supergate made from another grown set *)
+    Lemma root_not_gate_elsewhere r S r' S' : (r, S) ∈ gs → (r', S') ∈ gs → r ≠ r' → r ∉ gates (c_g (mk_sg co r' S')).
+    Proof.
+      intros Hin Hin' Hne [Hd Hni]%elem_of_difference. apply Hni. pose proof (mk_sg_dom _ _ _ _ Hd) as HrS'.
+      pose proof Hgrow as Hg. rewrite Forall_forall in Hg. destruct (Hg _ Hin') as (_ & _ & _ & Hroute'). simpl in Hroute'.
+      destruct (Hroute' r HrS') as [|[_ (q & _ & Hq & _)]]; [done|].
+      apply (kids_elem co o rank C1 C2 C3 Hav) in Hq as (_ & Hrd & Hro & _).
+      assert (r ∈ tfi_star L o) as Hrup by (eapply cone_dom; eauto).
+      destruct (co_node r Hrup) as (k & kL & Hk & HkL & Hty & Hfi).
+      destruct (mk_sg_lookup_intro co r' S' r k HrS' Hk) as (i & Hi & Hti).
+      apply elem_of_inputs. exists i. split; [done|]. rewrite Hti.
+      destruct (Hg _ Hin) as (_ & [|Hl] & _); [done|]. simpl in Hl. unfold sg_split_above in Hl.
+      destruct (two_children_operands co o rank C1 C2 C3 Hav r Hrd Hro (co_bound r) Hl) as [[t Ht] _].
+      assert (is_const (n_ty k) = false) as Hc.
+      { destruct (is_const (n_ty k)) eqn:Hc; [|done]. exfalso. rewrite Hty in Hc. pose proof (Hconst r kL HkL Hc) as E.
+        unfold fanin in Ht. rewrite Hk in Ht. simpl in Ht. rewrite Hfi, E in Ht. by apply elem_of_empty in Ht. }
+      rewrite Hc. rewrite bool_decide_eq_true_2; [done|]. apply elem_of_equiv_empty_L. intros f [Hf HfS']%elem_of_intersection.
+      eapply (root_input_elsewhere co o rank C1 C2 C3 Hav gs Hgrow r S r' S' f); try done; [apply co_bound|].
+      unfold fanin. by rewrite Hk.
+    Qed.
+  End one_cone.
+End cover.
